@@ -34,7 +34,11 @@ func zzAllZero(b []byte) bool {
 	return true
 }
 
-func zzNewC05World(state int) *zzC05World {
+func zzNewC05World(state0 int) *zzC05World {
+	state := state0
+	if state == 5 || state == 6 {
+		state = 1
+	}
 	w := &zzC05World{zzMgrWorld: zzNewMgrWorld(zzSeedA), pass: zzPrvPass}
 	sm, err := w.mgr.FetchScopedKeyManager(KeyScopeBIP0084)
 	zzMust(err)
@@ -250,12 +254,54 @@ func zzC05Lock(state int) {
 		}))
 		w.pubAddr, w.scripts, w.cached = nil, nil, nil
 	}
+	if state == 5 {
+		// restart, unlock, and import a private key and a secret script into
+		// a key scope in which NO account has been loaded in this session
+		w.mgr.Close()
+		w.open()
+		sm, err := w.mgr.FetchScopedKeyManager(KeyScopeBIP0049Plus)
+		zzMust(err)
+		w.sm = sm
+		w.pubAddr, w.scripts, w.cached = nil, nil, nil
+		zzMust(w.view(func(ns walletdb.ReadBucket) error { return w.mgr.Unlock(ns, zzPrvPass) }))
+		priv, _ := btcec.PrivKeyFromBytes([]byte{0x31, 0x22, 0x33, 0x44, 0x55, 0x66, 0x77, 0x88, 0x99, 0xaa, 0xbb, 0xcc, 0xdd, 0xee, 0xff, 0x01,
+			0x11, 0x22, 0x33, 0x44, 0x55, 0x66, 0x77, 0x88, 0x99, 0xaa, 0xbb, 0xcc, 0xdd, 0xee, 0xff, 0x05})
+		wif, err := btcutil.NewWIF(priv, w.params, true)
+		zzMust(err)
+		zzMust(w.update(func(ns walletdb.ReadWriteBucket) error {
+			ma, err := sm.ImportPrivateKey(ns, wif, &BlockStamp{})
+			if err != nil {
+				return err
+			}
+			w.pubAddr = append(w.pubAddr, ma)
+			sa, err := sm.ImportScript(ns, []byte{0x51, 0x55, 0x93, 0x87}, &BlockStamp{})
+			if err != nil {
+				return err
+			}
+			w.scripts = append(w.scripts, sa)
+			return nil
+		}))
+		verifrt.Assert(len(sm.acctInfo) == 0, "c05-setup-no-account-loaded-in-scope")
+		verifrt.Reach("imports-into-untouched-scope")
+	}
+	if state == 6 {
+		// a cached derivation whose account is then dropped from the account cache
+		kp := DerivationPath{InternalAccount: 0, Account: 0, Branch: ExternalBranch, Index: 3}
+		k, err := w.sm.DeriveFromKeyPathCache(kp)
+		zzMust(err)
+		verifrt.Assert(k != nil, "c05-setup-cached-derivation")
+		w.cached = append(w.cached, kp)
+		w.sm.InvalidateAccountCache(0)
+		verifrt.Reach("account-cache-invalidated")
+	}
 	zzMust(w.mgr.Lock())
 	w.wiped("c05-wipe")
 	w.gated("c05-gate")
 	verifrt.Reach("c05-end")
 }
 
+func ZzC05LockUntouchedScope() { zzC05Lock(5) }
+func ZzC05LockInvalidated()    { zzC05Lock(6) }
 func ZzC05LockFresh()   { zzC05Lock(0) }
 func ZzC05LockIssued()  { zzC05Lock(1) }
 func ZzC05LockImports() { zzC05Lock(2) }
